@@ -8,6 +8,8 @@ TB = ("Trusted base: the pyvc encoding of the stated Python subset (DESIGN 2.3; 
 CLAIMED = {
  "C01": ("handlers of all six operation kinds executed symbolically over an arbitrary record: terminal records short-circuit without user function or update and yield exactly the recorded result/error; summary contexts re-traverse once without records",
          "4 C01", "state merge of paginated history and consumer merge are separate obligations (see evidence); positions are identified by C08"),
+ "C02": ("relational lemmas generated from the verified case tables: for step/child/wait_for_condition the completing run returns the user function's value and records serialize(S, value), and the replay of that record deserializes with the same S (equal under the round-trip hypothesis); final errors: the failing run raises exactly the CallableRuntimeError every replay builds from the record; recorded errors survive the wire exactly; batch items of the first run equal the items rebuilt on replay",
+         "4 C02", "the whole-program corollary (induction over all user programs) is stated under U, not discharged; custom SerDes round trip is a hypothesis"),
  "C03": ("trace postconditions on every path of step/child/wait_for_condition/wait/invoke/callback handlers: values and final errors only after the synchronous terminal update was accepted; suspensions only after a synchronous START/RETRY or with an existing non-terminal record",
          "4 C03", "real-time schedules of the OS thread pool (G assumed)"),
  "C04": ("for at-most-once semantics every path entering the user function is preceded, in the same call, by an accepted synchronous START and a re-read STARTED record; a STARTED record on entry is never re-run",
